@@ -113,10 +113,14 @@ func (l *Lexer) NextToken() *token.Token {
 	case '"', '`':
 		str, ok := l.readString(ch)
 		if !ok {
+			l.pos-- // stay on the terminating NUL / end of input: see case 0 below.
 			return l.EOLEOF()
 		}
 		return token.Intern(token.STRING, str)
 	case 0:
+		// Do not move past the end marker (end of input or a NUL byte) so that
+		// every subsequent call keeps returning it.
+		l.pos--
 		return l.EOLEOF()
 	case '.':
 		if nextChar == '.' { // DOTDOT
